@@ -135,18 +135,23 @@ def out (C : Cls) (s : State) (o : Op) : Out :=
 
 def step (C : Cls) (s : State) (o : Op) : State × Out := (next C s o, out C s o)
 
-/-- per-call record for the harness: did the call go through, the canonical list of the state *before* the call
-    (what to replay on a fresh object before making the same call), the stale registers after the call -/
+/-- per-call record for the harness: did the call go through; the canonical list of the state *before* the call
+    (what to replay on a fresh object before making the same call); the canonical list of the state *after* the
+    call (`normalize` of the history up to and including it: a fresh object on which exactly these calls are made
+    is in the same state); the stale registers after the call -/
 structure Trace where
   ok : Bool
   replay : List Op
+  after : List Op
   stale : List Nat
   deriving Repr
 
 def trace (C : Cls) : State → List Op → List Trace
   | _, [] => []
   | s, o :: rest =>
-    let t : Trace := if admits C s o then ⟨true, canon C s, stale C (apply C s o)⟩ else ⟨false, canon C s, []⟩
+    let t : Trace :=
+      if admits C s o then ⟨true, canon C s, canon C (apply C s o), stale C (apply C s o)⟩
+      else ⟨false, canon C s, canon C s, []⟩
     t :: trace C (next C s o) rest
 
 /-! ### Class tables (method ids are the positions in `sigs`; the harness uses the same numbering)
@@ -217,10 +222,11 @@ def stochTmle : Cls := ⟨2, 1, [
   resS,                 -- 3 summary
   resS]⟩                -- 4 run_diagnostics
 
-/-- TimeFixedGFormula: slot 0 outcome_model -/
-def timeFixed : Cls := ⟨1, 0, [
+/-- TimeFixedGFormula: slot 0 outcome_model; register 0 = `predicted_df`, written by `fit` only (flag always true):
+    after a later `fit_stochastic` it still holds the predictions of the earlier plan -/
+def timeFixed : Cls := ⟨1, 1, [
   spec 0,               -- 0 outcome_model
-  fitS [0],             -- 1 fit
+  { isFit := true, req := [0], sticky := some 0 },   -- 1 fit
   fitS [0],             -- 2 fit_stochastic
   readS [0],            -- 3 run_diagnostics
   readS [0]]⟩           -- 4 plot_kde
